@@ -668,7 +668,7 @@ def check_c14(tier, seed, chk):
     def feed(path):
         return path, run_zoo(binary, ["--test", "--include-ignored", "--exact", path], timeout=120)
 
-    step = 1 if tier == "thorough" or len(listed) < 1500 else 2
+    step = 1 if tier == "thorough" or len(listed) < 600 else 2
     for path, r in pmap(feed, listed[::step]):
         count_run(res, r, len(r.log))
         want = expected_records(model, by_path.get(path, []))
